@@ -99,18 +99,23 @@ Fixpoint assoc {A : Type} (n : name) (l : list (name * A)) : option A :=
 Definition has_name {A : Type} (n : name) (l : list (name * A)) : bool :=
   match assoc n l with Some _ => true | None => false end.
 
-(* the regular file at a path, content only (None for directories, links, submodules, nothing) *)
-Fixpoint blob_at (e : gentry) (p : path) {struct p} : option str :=
+(* what git records for a regular file: the executable bit (kept in the parent tree) and the content *)
+Definition file := (bool * str)%type.
+
+Definition file_eqb (a b : file) : bool := Bool.eqb (fst a) (fst b) && str_eqb (snd a) (snd b).
+
+(* the regular file at a path, mode and content (None for directories, links, submodules, nothing) *)
+Fixpoint blob_at (e : gentry) (p : path) {struct p} : option file :=
   match p, e with
-  | [], Blob _ c => Some c
+  | [], Blob x c => Some (x, c)
   | n :: q, Tree es => match assoc n es with Some x => blob_at x q | None => None end
   | _, _ => None
   end.
 
-(* every regular file below an entry with its content *)
-Fixpoint blobs (e : gentry) : list (path * str) :=
+(* every regular file below an entry with its mode and content *)
+Fixpoint blobs (e : gentry) : list (path * file) :=
   match e with
-  | Blob _ c => [([], c)]
+  | Blob x c => [([], (x, c))]
   | Tree es => flat_map (fun ne => map (fun pc => (fst ne :: fst pc, snd pc)) (blobs (snd ne))) es
   | Link _ | Commit _ => []
   end.
@@ -175,11 +180,13 @@ Definition process_deleted_entry (e : gentry) : res :=
   | Link _ | Commit _ => []
   end.
 
-(* the test that guards process_changed_entry: same object id and same class of entry.
-   (A symbolic link is stored as a blob, so a Link and a Blob can share an id; the class test
-   makes the skip safe. Before fix D32 the test was the id alone.) *)
+(* the test that guards process_changed_entry: same object id and same entry kind (file mode).
+   The mode lives in the parent tree, not in the object: a chmod leaves the id alone, and a symbolic
+   link is stored as a blob and can share an id with a file.  (Originally the test was the id alone;
+   fix D32 added the link/submodule class, fix D70 the full kind, so that a mode-only change is a
+   change, as in git diff --name-only.) *)
 Definition same_object (b t : gentry) : bool :=
-  oid_eqb b t && Bool.eqb (is_special b) (is_special t).
+  oid_eqb b t && ekind_eqb (kind_of b) (kind_of t).
 
 (* process_changed_entry; the Tree/Tree case is compare_trees_recursive, written inline because
    the recursion goes through it. Link / Commit against Blob / Tree: the regular side counts as
@@ -252,7 +259,8 @@ Definition get_changed_files_range (canon : path -> option path)
 Inductive ientry :=
 | IBlob (exec : bool) (content : str)
 | ILink (target : str)
-| ICommit (id : str).
+| ICommit (id : str)
+| IIntent.                               (* intent-to-add entry (git add -N): a placeholder *)
 
 Definition index := list (path * ientry).
 
@@ -266,11 +274,11 @@ Definition is_regular (e : ientry) : bool :=
   match e with IBlob _ _ => true | _ => false end.
 
 (* the regular-file content held by the index at a path *)
-Definition iblob_at (idx : index) (p : path) : option str :=
-  match assoc_path p idx with Some (IBlob _ c) => Some c | _ => None end.
+Definition iblob_at (idx : index) (p : path) : option file :=
+  match assoc_path p idx with Some (IBlob x c) => Some (x, c) | _ => None end.
 
 (* build_head_path_map: regular files of HEAD with their blob ids; no HEAD commit -> empty *)
-Definition build_head_path_map (head : option (list (name * gentry))) : list (path * str) :=
+Definition build_head_path_map (head : option (list (name * gentry))) : list (path * file) :=
   match head with Some es => blobs (Tree es) | None => [] end.
 
 (* index_paths: does the index hold a regular-file entry at p *)
@@ -279,18 +287,19 @@ Definition has_regular (idx : index) (p : path) : bool :=
 
 (* get_staged_files. Entries that are not regular files are skipped like on the HEAD side
    (fix D21); regular files of HEAD that have no regular index entry and still exist are
-   included (fix D22). A missing index file is the empty index (fix D33). *)
+   included (fix D22). A missing index file is the empty index (fix D33). The executable bit is
+   compared along with the id (fix D70); intent-to-add entries are skipped (fix D71). *)
 Definition get_staged_files (canon : path -> option path)
            (head : option (list (name * gentry))) (idx : index) : list path :=
   let hm := build_head_path_map head in
   filter_map (fun pe =>
       match snd pe with
-      | IBlob _ c =>
+      | IBlob x c =>
           match assoc_path (fst pe) hm with
-          | Some hc => if str_eqb hc c then None else Some (fst pe)
+          | Some hf => if file_eqb hf (x, c) then None else Some (fst pe)
           | None => Some (fst pe)
           end
-      | ILink _ | ICommit _ => None
+      | ILink _ | ICommit _ | IIntent => None
       end) idx
   ++ filter (fun p => negb (has_regular idx p) && exists_b canon p) (map fst hm).
 
